@@ -2,7 +2,7 @@
    over 7 final particles (evaluated by the kernel's VM; about 9 minutes). Kept in its own file so that the rest of
    Comb/ does not wait for it. *)
 From Coq Require Import List ZArith Bool.
-From TFV Require Import Comb.Topology Comb.Topology_proofs.
+From TFV Require Import Comb.Topology.
 Import ListNotations.
 
 Lemma std_homomorphism_7 :
@@ -13,13 +13,3 @@ Lemma std_homomorphism_7_forall :
   forall c, In c (from_particles 7) ->
     homomorphism_ok (standard_topology c) c && homomorphism_ok c (standard_topology c) = true.
 Proof. exact (proj1 (forallb_forall _ _) std_homomorphism_7). Qed.
-
-Lemma std_homomorphism_le7_forall :
-  forall n, In n [2; 3; 4; 5; 6; 7] -> forall c, In c (from_particles n) ->
-    homomorphism_ok (standard_topology c) c && homomorphism_ok c (standard_topology c) = true.
-Proof.
-  intros n Hn c Hc. simpl in Hn.
-  destruct Hn as [<-|[<-|[<-|[<-|[<-|[<-|[]]]]]]];
-    try (apply (std_homomorphism_le6_forall _ ltac:(simpl; tauto) c Hc)).
-  exact (std_homomorphism_7_forall c Hc).
-Qed.
